@@ -387,3 +387,66 @@ def reserved_names_and_candidates_are_keyed_alike(ctx: Ctx) -> None:
         ok = ok and dominated
     ctx.ob("DependenciesResolver rebuilds self.aliases for every process() call (entries of the previous module do not survive)", ok, at=pr, construct="alias table reset",
            msg="aliases are only added: an alias chosen for one module is applied to the types of the next module, which imports the class under its own name (NameError when the generated module is imported)")
+
+
+@rule("C07.R9")
+def taken_names_are_refreshed_after_each_rename(ctx: Ctx) -> None:
+    """ClassUtils.rename_attributes_by_index gives every further duplicate a name that is free *now*: the set of taken slugs handed to
+    unique_name() is recomputed after each rename (or extended with the new name) - a set computed once lets the third duplicate
+    take the suffix the second one just got (`id`, `ID_1`, `Id_1` -> two fields `id_1`)."""
+    from ..q import _def_nodes
+
+    fi = ctx.repo.func("xsdata.codegen.utils:ClassUtils.rename_attributes_by_index")
+    g = build_cfg(fi.node)
+    calls = [(node_containing(g, c), c) for c in calls_in(fi.node) if call_name_of(c) == "unique_name"]
+    calls = [(n, c) for n, c in calls if n is not None]
+    renames = [g.node_of(st) for st, tgt, v in stores(fi.node) if isinstance(tgt, ast.Attribute) and tgt.attr == "name"]
+    renames = [r for r in renames if r is not None]
+    if not calls or not renames:
+        ctx.abstain("rename loop of rename_attributes_by_index", at=fi, why="no unique_name() call / no store to `.name` found")
+        return
+    for n, c in calls:
+        arg = c.args[1] if len(c.args) > 1 else kwarg(c, "reserved")
+        if not isinstance(arg, ast.Name):
+            ctx.abstain("taken-names argument of unique_name", at=fi, why="the reserved set is not passed as a plain local")
+            continue
+        defs = set(_def_nodes(g).get(arg.id, {}))
+        # in-place growth of the set counts as a refresh as well
+        defs |= {m.id for m in g.stmts() if any(isinstance(x.func, ast.Attribute) and x.func.attr in ("add", "update") and isinstance(x.func.value, ast.Name) and x.func.value.id == arg.id for x in node_calls(m))}
+        stale = [r for r in renames if n.id in g.reachable([m for m, lab in g.succ[r.id] if lab != "exc"], blocked=defs, labels=lambda lab: lab != "exc")]
+        ctx.ob("rename_attributes_by_index: the set of taken names is recomputed (or grown) between one rename and the next unique_name() call", not stale, at=fi, node=c, construct="taken names refreshed",
+               msg=f"`{arg.id}` is computed before the loop and never refreshed: the name given to one duplicate is not reserved when the next one is renamed - three fields that collide (id / ID / Id) end up as id, id_1, id_1")
+
+
+@rule("C07.R10")
+def alias_stamping_visits_every_type_holder(ctx: Ctx) -> None:
+    """The imports of a module are collected from `Class.types_with_parents()` (extensions, attr types, choice types, inner classes);
+    `DependenciesResolver.apply_aliases` stamps the import alias on the types that are rendered.  The two traversals must visit the same
+    holders: a holder the import collector sees and the alias pass skips is rendered with the bare name while the module imports it
+    `as <alias>` - the name then binds to the wrong class or to nothing."""
+    from ..q import family as _family
+
+    ref = ctx.repo.func("xsdata.codegen.models:Class.types_with_parents")
+    ap = ctx.repo.func("xsdata.codegen.resolver:DependenciesResolver.apply_aliases")
+    model_fields: set[str] = set()
+    for cname in ("Class", "Attr", "Extension"):
+        ci = ctx.repo.classes.get(f"xsdata.codegen.models:{cname}")
+        if ci is not None:
+            model_fields |= set(ci.ann)
+
+    def visited(fis) -> set[str]:
+        return {x.attr for f in fis for x in walk_no_nested(f.node) if isinstance(x, ast.Attribute) and isinstance(x.ctx, ast.Load) and x.attr in model_fields}
+
+    want = visited([ref]) - {"qname", "name"}
+    fam = _family(ctx.repo, ap)
+    if any(call_name_of(c) in ("types", "types_with_parents") for f in fam for c in calls_in(f.node)):
+        ctx.ob("apply_aliases walks the class through the import collector's own traversal", True, at=ap, construct="alias traversal shared")
+        return
+    if len(want) < 3:
+        ctx.abstain("holders visited by Class.types_with_parents", at=ref, why=f"only {sorted(want)} recognised")
+        return
+    got = visited(fam)
+    missing = sorted(want - got)
+    ctx.note("C07.R10 type holders", sorted(want))
+    ctx.ob(f"apply_aliases visits every holder of types the import collector visits ({', '.join(sorted(want))})", not missing, at=ap, construct="alias traversal complete",
+           msg=f"never reads {missing}: types held there are imported `as <alias>` when two modules export the same class name, but rendered with the bare name (NameError or the wrong class at import)")
